@@ -99,3 +99,38 @@ Print Assumptions c09_reply_passes_barrier.
 Theorem c09_reader_never_blocked : forall s f, crash s = None -> rd s = RHold f -> exists s' os, step s LRelRead = Some (s', os).
 Proof. exact reader_enabled. Qed.
 Print Assumptions c09_reader_never_blocked.
+
+(* 3. exactly-once return.  [count_final n oss] counts, over all windows of the run, the
+      observations [ORet n r] with r a result, an error, a context error or a send failure.
+      They are at most as many as the environment's push calls numbered n; if the environment
+      never reuses an operation number (hypothesis NoDup) at most one. *)
+Theorem c09_returns_at_most_calls : forall c tr s oss n,
+  run (init_of c) tr = Some (s, oss) -> count_final n oss <= count_push n tr.
+Proof. exact returns_at_most_calls. Qed.
+Print Assumptions c09_returns_at_most_calls.
+
+Theorem c09_returns_once : forall c tr s oss n,
+  run (init_of c) tr = Some (s, oss) -> NoDup (push_nums tr) -> count_final n oss <= 1.
+Proof. exact returns_once. Qed.
+Print Assumptions c09_returns_once.
+
+(* a completed callback (slot written or already returned) is no longer registered *)
+Theorem c09_done_not_registered : forall c s i cb0, reach c s ->
+  nth_error (cbs s) i = Some cb0 -> live cb0 = false -> ~ In (cb_id cb0, i) (calls s).
+Proof. exact (fun c s i cb0 R => done_not_registered s i cb0 (inv_push_reach c s R)). Qed.
+Print Assumptions c09_done_not_registered.
+
+(* quiescent completeness: a callback still outstanding in a quiescent state has a live context
+   and a running server; so context end and Stop have both led to its completion *)
+Theorem c09_quiescent_complete : forall c s k i,
+  reach c s -> crash s = None -> quiescent s = true -> In (k, i) (calls s) ->
+  exists cb0, nth_error (cbs s) i = Some cb0 /\ cb_id cb0 = k /\
+    cb_ctx cb0 = None /\ cb_cancelled cb0 = false /\ running s = true.
+Proof. exact quiescent_complete. Qed.
+Print Assumptions c09_quiescent_complete.
+
+Theorem c09_stopped_callbacks_cancelled : forall c s k i,
+  reach c s -> running s = false -> In (k, i) (calls s) ->
+  exists cb0, nth_error (cbs s) i = Some cb0 /\ cb_cancelled cb0 = true /\ cb_watch cb0 = WParked.
+Proof. exact stopped_callbacks_cancelled. Qed.
+Print Assumptions c09_stopped_callbacks_cancelled.
